@@ -500,3 +500,123 @@ fn c15_ephemeral_port_avoids_live_stream_port() {
     kani::cover!(cur == 2 && p == 50003, "stream port skipped");
 }
 }
+
+// C09: the receive filter of a bound UDP socket (`Udp::receive_from_network`), through the real
+// `Udp::bind` / `Udp::connect`. The bound PORT and the destination PORT are concrete per instance
+// (table keys); the bind ADDRESS shape is concrete per instance; destination address, source
+// address and port, the connected peer and the payload are symbolic. Reference (written without
+// `matches`): the datagram is queued iff the destination port is the bound port, the bind address
+// is the v4 wildcard or equals the destination address, the socket is unconnected or its peer is
+// exactly the source socket, and the queue has room. A queued datagram is the payload unaltered
+// with the true source; anything else leaves the queue untouched.
+fn udp_filter<const CAP: usize>(bind_ip: IpAddr, dst_port: u16, connected: bool, prefill: usize) -> (bool, bool, bool) {
+    let mut udp = Udp::new(CAP);
+    let bind_addr = SocketAddr::new(bind_ip, 9000);
+    let sock = udp.bind(bind_addr);
+    assert!(sock.is_ok());
+    std::mem::forget(sock);
+    // observe the queue through a channel of our own (the socket's receiver is private to net::udp)
+    let (tx, mut rx) = mpsc::channel::<(Datagram, SocketAddr)>(CAP);
+    let old = std::mem::replace(&mut udp.binds.get_mut(&9000).unwrap().queue, tx);
+    std::mem::forget(old);
+    let filler = SocketAddr::new(OTHER_IP, 1);
+    let mut i = 0;
+    while i < prefill {
+        udp.receive_from_network(filler, SocketAddr::new(if bind_ip.is_unspecified() { HOST_IP } else { bind_ip }, 9000),
+                                 Datagram(Bytes::copy_from_slice(&[0xEE])));
+        i += 1;
+    }
+    assert!(rx.len() == prefill);
+    let peer = SocketAddr::new(IpAddr::V4(any_v4()), kani::any());
+    if connected {
+        // a connected peer is a concrete socket address (never a wildcard)
+        kani::assume(!peer.ip().is_unspecified());
+        udp.connect(bind_addr, peer);
+    }
+    let src = SocketAddr::new(IpAddr::V4(any_v4()), kani::any());
+    let dst = SocketAddr::new(IpAddr::V4(any_v4()), dst_port);
+    let payload: [u8; 2] = kani::any();
+    udp.receive_from_network(src, dst, Datagram(Bytes::copy_from_slice(&payload)));
+    let addr_ok = dst_port == 9000 && (bind_ip.is_unspecified() || bind_ip == dst.ip());
+    let peer_ok = !connected || (peer.ip() == src.ip() && peer.port() == src.port());
+    let room = prefill < CAP;
+    let expect = addr_ok && peer_ok && room;
+    assert!(rx.len() == prefill + expect as usize, "queued exactly when the datagram targets this socket and there is room");
+    // earlier datagrams are undisturbed and come out first
+    let mut j = 0;
+    while j < prefill {
+        match rx.try_recv() {
+            Ok((d, from)) => {
+                assert!(d.0.len() == 1 && d.0[0] == 0xEE && from == filler);
+                std::mem::forget(d);
+            }
+            Err(_) => panic!("earlier datagram lost"),
+        }
+        j += 1;
+    }
+    if expect {
+        match rx.try_recv() {
+            Ok((d, from)) => {
+                assert!(from == src, "the reported origin is the sending socket");
+                assert!(d.0.len() == 2 && d.0[0] == payload[0] && d.0[1] == payload[1], "payload unaltered");
+                std::mem::forget(d);
+            }
+            Err(_) => panic!("queued datagram must be receivable"),
+        }
+    }
+    assert!(rx.len() == 0, "at most one receive per send");
+    std::mem::forget(udp);
+    std::mem::forget(rx);
+    (addr_ok, peer_ok, expect)
+}
+// @verif id=C09 tier=quick role=udp_receive_filter timeout=900 desc=bind=0.0.0.0:9000,unconnected
+crate::verif_proof! { unwind = 6;
+fn c09_udp_wildcard_bind_receives_any_local_destination() {
+    let (a, p, e) = udp_filter::<2>(IpAddr::V4(Ipv4Addr::UNSPECIFIED), 9000, false, 0);
+    assert!(a && p && e);
+    kani::cover!(e, "delivered");
+}
+}
+// @verif id=C09 tier=quick role=udp_receive_filter timeout=900 desc=bind=0.0.0.0:9000,connected-peer-filter
+crate::verif_proof! { unwind = 6;
+fn c09_udp_connected_socket_receives_only_from_its_peer() {
+    let (a, p, e) = udp_filter::<2>(IpAddr::V4(Ipv4Addr::UNSPECIFIED), 9000, true, 0);
+    assert!(a && e == p);
+    kani::cover!(e, "datagram from the connected peer is delivered");
+    kani::cover!(!p, "datagram from another socket is filtered");
+}
+}
+// @verif id=C09 tier=quick role=udp_receive_filter timeout=900 desc=bind=127.0.0.1:9000,unconnected
+crate::verif_proof! { unwind = 6;
+fn c09_udp_localhost_bind_receives_only_loopback_destinations() {
+    let (a, _p, e) = udp_filter::<2>(IpAddr::V4(Ipv4Addr::LOCALHOST), 9000, false, 0);
+    assert!(e == a);
+    kani::cover!(e, "loopback destination delivered");
+    kani::cover!(!a, "non-loopback destination dropped");
+}
+}
+// @verif id=C09 tier=quick role=udp_receive_filter timeout=900 desc=bind=0.0.0.0:9000,queue-full(cap=1)
+crate::verif_proof! { unwind = 6;
+fn c09_udp_datagram_beyond_capacity_is_dropped_alone() {
+    let (a, _p, e) = udp_filter::<1>(IpAddr::V4(Ipv4Addr::UNSPECIFIED), 9000, false, 1);
+    assert!(a && !e);
+    kani::cover!(!e, "overflow dropped, earlier datagram intact");
+}
+}
+// @verif id=C09 tier=thorough role=udp_receive_filter timeout=900 desc=bind=0.0.0.0:9000,datagram-to-port-9001
+crate::verif_proof! { unwind = 6;
+fn c09_udp_datagram_to_unbound_port_is_dropped() {
+    let (a, _p, e) = udp_filter::<2>(IpAddr::V4(Ipv4Addr::UNSPECIFIED), 9001, false, 1);
+    assert!(!a && !e);
+    kani::cover!(!e, "unbound port: dropped, queue undisturbed");
+}
+}
+// @verif id=C09 tier=thorough role=udp_receive_filter timeout=900 desc=bind=host-ip:9000,connected,one-queued(cap=2)
+crate::verif_proof! { unwind = 6;
+fn c09_udp_specific_bind_connected_second_datagram() {
+    let (a, p, e) = udp_filter::<2>(HOST_IP, 9000, true, 1);
+    assert!(e == (a && p));
+    kani::cover!(e, "second datagram queued behind the first");
+    kani::cover!(a && !p, "right address, wrong peer: filtered");
+}
+}
